@@ -50,6 +50,7 @@ type canCall struct {
 	mode string // park | deaf | quick | drive
 	d    int    // quick: the handler answers after d ms
 	at   int    // the call is issued `at` ms after the scenario (c2s) resp. the carrier's handler (s2c) started
+	s    int    // the session the call is made on (0; 1 = the second session of a twin case, client→server only)
 	grp  bool   // the call's context is ALSO a child of the case's shared group context (errgroup / request scope / common
 	//             deadline): it ends in the instant in which the victim's context ends, with the same error
 }
@@ -66,6 +67,9 @@ type canCase struct {
 	//               context.Cause — what net/http reports for an interrupted exchange — is the custom error)
 	fault  string // none stall reject fail : what the transport does to the victim side's notifications/cancelled
 	//                 on fj (what the foreign server does with the POST of the notice): none late stall timeout s503 reset
+	twin   string // "" | c: ONE Client connected to TWO servers | s: ONE Server with TWO client sessions (two Clients); every
+	//               call of the scenario proper is on session 0, the calls with s=1 on the other session
+	victim2 int   // a call of session 1 whose context ends (cancel()) 20 ms after the victim's; -1: none
 	bc     bool   // MCPGODEBUG=blockingcancelnotify=1: mcp.call sends the notice synchronously (cancelCall) before it retires the call
 	rclose bool   // the RECEIVER of the victim's request starts a graceful Close 5 ms before the victim's context ends
 }
@@ -75,6 +79,9 @@ func (c *canCase) cfgOp() string {
 	if c.bc {
 		op += " bc=1"
 	}
+	if c.twin != "" {
+		op += " tw=" + c.twin
+	}
 	return op
 }
 func (c *canCase) callOp(i int) string {
@@ -82,6 +89,9 @@ func (c *canCase) callOp(i int) string {
 	op := fmt.Sprintf("c %d dir=%s meth=%s mode=%s d=%d at=%d", i, k.dir, k.meth, k.mode, k.d, k.at)
 	if k.grp {
 		op += " g=1"
+	}
+	if k.s != 0 {
+		op += fmt.Sprintf(" s=%d", k.s)
 	}
 	return op
 }
@@ -94,17 +104,24 @@ func (c *canCase) cancelOp() string {
 	if c.cz {
 		op += " cz=1"
 	}
+	if c.twin != "" && c.victim2 >= 0 {
+		op += fmt.Sprintf(" v2=%d", c.victim2)
+	}
 	if c.rclose {
 		op += " rc=1"
 	}
 	return op
 }
 
+const canListenURI = "file:///listen/"
+
 const (
 	canBlockerTag = 1000  // + i : the notification that holds the peer's dispatcher in front of call i
 	canFollow1    = 100   // tags of the follow-up calls: 100 c2s before the release, 101 nested before the release, 102 c2s at the end
 	canFollowN    = 101
 	canFollow2    = 102
+	canFollow1B   = 103 // on session 1: before the release, at the end
+	canFollow2B   = 104
 	canIgnore     = -2
 	canBlockMs    = 20
 	canReleaseMs  = 400   // every handler is released this long after the cancellation
@@ -195,6 +212,7 @@ type canH struct {
 	extra    int
 	returned sync.WaitGroup
 	follow   chan struct{} // closed when the carrier may make its nested follow-up call
+	css      []*ClientSession // the client session of each session of the case
 	group    *canCtx       // the shared context of the calls with grp (not a call: ending it is not logged)
 	relAll   chan struct{}
 	wfault   map[string]int // what the fault injection did
@@ -258,6 +276,16 @@ func (h *canH) end(i int, err error) {
 		if c.innerCancel != nil {
 			c.innerCancel(errCanCause)
 		}
+		if i >= 0 && i < len(h.c.calls) && h.c.calls[i].meth == "listen" && len(h.css) > h.c.calls[i].s && h.css[h.c.calls[i].s] != nil {
+			// the context of a subscriptions/listen call belongs to the session: Unsubscribe ends it (a detached
+			// goroutine then runs cancelCall); the caller's side of the cancellation is Unsubscribe returning
+			uerr := h.css[h.c.calls[i].s].Unsubscribe(context.Background(), &UnsubscribeParams{URI: canListenURI + strconv.Itoa(i)})
+			if uerr == nil {
+				h.log("ret", i, "ctx:c")
+			} else {
+				h.log("ret", i, "err")
+			}
+		}
 	})
 }
 
@@ -275,6 +303,14 @@ func canTagOf(m map[string]any) (int, bool) {
 func (h *canH) sendMW(next MethodHandler) MethodHandler {
 	return func(ctx context.Context, method string, req Request) (Result, error) {
 		tag, ok := ctx.Value(canTagKey{}).(int)
+		if lp, isListen := req.GetParams().(*SubscriptionsListenParams); method == methodSubscriptionsListen && isListen && lp != nil &&
+			lp.Notifications != nil && len(lp.Notifications.ResourceSubscriptions) == 1 {
+			// ClientSession.Subscribe (2026-07-28) opens the listen stream on a context of its own: the call is
+			// identified by the URI it subscribes to
+			if n, err := strconv.Atoi(strings.TrimPrefix(lp.Notifications.ResourceSubscriptions[0], canListenURI)); err == nil {
+				tag, ok = n, true
+			}
+		}
 		if !ok {
 			tag = canIgnore
 			// a server→client call made by serverMultiRoundTripMiddleware (mcp/mrtr.go) to fulfil an input request of
@@ -304,6 +340,11 @@ func (h *canH) sendMW(next MethodHandler) MethodHandler {
 		res, err := next(ctx, method, req)
 		if err != nil && os.Getenv("VERIF_CAN_DEBUG") != "" {
 			fmt.Fprintf(os.Stderr, "DEBUG tag=%d method=%s err=%v\n", tag, method, err)
+		}
+		if method == methodSubscriptionsListen && err == nil {
+			// callSubscriptionsListen does not await the call: Subscribe returning is not the return of the call; the
+			// caller "returns" when it abandons the stream (Unsubscribe, see canH.end)
+			return res, err
 		}
 		h.log("ret", tag, canClassify(res, err))
 		return res, err
@@ -342,7 +383,7 @@ func (h *canH) spec(tag int) (canCall, bool) {
 	switch {
 	case tag >= 0 && tag < len(h.c.calls):
 		return h.c.calls[tag], true
-	case tag == canFollow1 || tag == canFollowN || tag == canFollow2:
+	case tag == canFollow1 || tag == canFollowN || tag == canFollow2 || tag == canFollow1B || tag == canFollow2B:
 		return canCall{mode: "quick"}, true
 	}
 	return canCall{}, false
@@ -428,6 +469,9 @@ func (h *canH) recvMW(next MethodHandler) MethodHandler {
 			err = ctx.Err()
 		} else {
 			res, err = next(ctx, method, req)
+			if k.mode == "listen" && ctx.Err() != nil {
+				hcOnce() // the real subscriptions/listen handler returned because its context ended
+			}
 			if _, empty := res.(*emptyResult); err == nil && res != nil && !empty {
 				res.SetMeta(map[string]any{"vtag": tag})
 			}
@@ -455,6 +499,8 @@ func (h *canH) issue(ctx context.Context, tag int, dir, meth string, cs *ClientS
 			_, err = cs.CallTool(ctx, &CallToolParams{Name: "mrtr", Arguments: map[string]any{}})
 		case "ping":
 			err = cs.Ping(ctx, &PingParams{})
+		case "listen":
+			err = cs.Subscribe(ctx, &SubscribeParams{URI: canListenURI + strconv.Itoa(tag)})
 		default:
 			err = fmt.Errorf("bad method %q", meth)
 		}
@@ -564,8 +610,8 @@ func (h *canH) script(ctx context.Context, ss *ServerSession, carrier int) {
 // ---------------------------------------------------------------------------------------------
 // Fault injection: what the transport does to ONE message, the notifications/cancelled of the victim.
 
-func (h *canH) faultFor(isCancelNotice bool, side string) string {
-	if !isCancelNotice || h.c.fault == "none" {
+func (h *canH) faultFor(isCancelNotice bool, side string, sess int) string {
+	if !isCancelNotice || h.c.fault == "none" || sess != 0 { // only the victim's session is faulted
 		return ""
 	}
 	vd := h.c.calls[h.c.victim].dir
@@ -598,6 +644,7 @@ type canFaultTransport struct {
 	Transport
 	h    *canH
 	side string
+	sess int
 }
 
 func (t *canFaultTransport) Connect(ctx context.Context) (Connection, error) {
@@ -605,18 +652,19 @@ func (t *canFaultTransport) Connect(ctx context.Context) (Connection, error) {
 	if err != nil {
 		return nil, err
 	}
-	return &canFaultConn{Connection: c, h: t.h, side: t.side}, nil
+	return &canFaultConn{Connection: c, h: t.h, side: t.side, sess: t.sess}, nil
 }
 
 type canFaultConn struct {
 	Connection
 	h    *canH
 	side string
+	sess int
 }
 
 func (c *canFaultConn) Write(ctx context.Context, msg jsonrpc.Message) error {
 	req, ok := msg.(*jsonrpc.Request)
-	f := c.h.faultFor(ok && req.Method == notificationCancelled, c.side)
+	f := c.h.faultFor(ok && req.Method == notificationCancelled, c.side, c.sess)
 	if done, err := canApplyFault(ctx, f); done {
 		return err
 	}
@@ -633,8 +681,9 @@ func (c *canFaultConn) Write(ctx context.Context, msg jsonrpc.Message) error {
 
 // canFaultRT wraps the client's http.RoundTripper: the POST that carries the victim's cancel notice is faulted.
 type canFaultRT struct {
-	rt http.RoundTripper
-	h  *canH
+	rt   http.RoundTripper
+	h    *canH
+	sess int
 }
 
 func (f *canFaultRT) RoundTrip(req *http.Request) (*http.Response, error) {
@@ -642,7 +691,7 @@ func (f *canFaultRT) RoundTrip(req *http.Request) (*http.Response, error) {
 		body, _ := io.ReadAll(req.Body)
 		req.Body.Close()
 		req.Body = io.NopCloser(strings.NewReader(string(body)))
-		ft := f.h.faultFor(strings.Contains(string(body), `"`+notificationCancelled+`"`), "client")
+		ft := f.h.faultFor(strings.Contains(string(body), `"`+notificationCancelled+`"`), "client", f.sess)
 		if done, err := canApplyFault(req.Context(), ft); done {
 			return nil, err
 		}
@@ -670,7 +719,8 @@ func (f *canFaultRT) RoundTrip(req *http.Request) (*http.Response, error) {
 // net/http, the read then fails with the context's error.
 
 type canForeign struct {
-	h   *canH
+	h    *canH
+	sess int
 	mu  sync.Mutex
 	can map[string]chan struct{} // request id (raw JSON) -> closed when a cancel notice named it
 	tag map[string]int
@@ -738,6 +788,9 @@ func (f *canForeign) RoundTrip(req *http.Request) (*http.Response, error) {
 	if len(msg.ID) == 0 { // a notification
 		if msg.Method == notificationCancelled {
 			fault := f.h.c.fault
+			if f.sess != 0 {
+				fault = "none"
+			}
 			if fault != "none" {
 				f.h.mu.Lock()
 				f.h.wfault[fault]++
@@ -877,8 +930,12 @@ func canRunCase(t *testing.T, out *verifOut, id string, c *canCase) {
 				carrier = i
 			}
 		}
+		mkServer := func() *Server {
 		server := NewServer(&Implementation{Name: "s", Version: "1"}, &ServerOptions{
 			ProgressNotificationHandler: func(context.Context, *ProgressNotificationServerRequest) {},
+			SubscribeHandler:            func(context.Context, *SubscribeRequest) error { return nil },
+			UnsubscribeHandler:          func(context.Context, *UnsubscribeRequest) error { return nil },
+			HasResources:                true,
 		})
 		server.AddReceivingMiddleware(h.recvMW)
 		server.AddSendingMiddleware(h.sendMW)
@@ -912,6 +969,9 @@ func canRunCase(t *testing.T, out *verifOut, id string, c *canCase) {
 			h.script(ctx, req.Session, carrier)
 			return &CallToolResult{Content: []Content{&TextContent{Text: "ok"}}}, nil
 		})
+		return server
+		}
+		mkClient := func() *Client {
 		client := NewClient(&Implementation{Name: "c", Version: "1"}, &ClientOptions{
 			CreateMessageHandler: func(context.Context, *CreateMessageRequest) (*CreateMessageResult, error) {
 				return &CreateMessageResult{Model: "m", Role: "assistant", Content: &TextContent{Text: "y"}}, nil
@@ -925,54 +985,87 @@ func canRunCase(t *testing.T, out *verifOut, id string, c *canCase) {
 		client.AddReceivingMiddleware(h.recvMW)
 		client.AddSendingMiddleware(h.sendMW)
 
-		var ct Transport
-		var cleanup []func()
-		var pipeSS *ServerSession
-		getServer := func(*http.Request) *Server { return server }
-		url := "http://verif.invalid/mcp"
-		switch c.tr {
-		case "mem":
-			a, b := NewInMemoryTransports()
-			var err error
-			if pipeSS, err = server.Connect(context.Background(), &canFaultTransport{a, h, "server"}, nil); err != nil {
-				status = "connect-fail"
-			}
-			ct = &canFaultTransport{b, h, "client"}
-		case "io":
-			r1, w1 := io.Pipe()
-			r2, w2 := io.Pipe()
-			var err error
-			if pipeSS, err = server.Connect(context.Background(), &canFaultTransport{&IOTransport{Reader: r1, Writer: w2}, h, "server"}, nil); err != nil {
-				status = "connect-fail"
-			}
-			ct = &canFaultTransport{&IOTransport{Reader: r2, Writer: w1}, h, "client"}
-		case "fj":
-			ct = &StreamableClientTransport{Endpoint: url, DisableStandaloneSSE: true,
-				HTTPClient: &http.Client{Transport: &canForeign{h: h, can: map[string]chan struct{}{}, tag: map[string]int{}}}}
-		case "sse":
-			hd := NewSSEHandler(getServer, nil)
-			ct = &SSEClientTransport{Endpoint: url, HTTPClient: &http.Client{Transport: &canFaultRT{&ordRT{h: hd}, h}}}
-		default:
-			o := &StreamableHTTPOptions{}
-			rest := strings.TrimPrefix(strings.TrimPrefix(c.tr, "sh"), "sl")
-			o.Stateless = strings.HasPrefix(c.tr, "sl")
-			o.PropagateRequestCancellation = strings.Contains(rest, "p")
-			o.JSONResponse = strings.Contains(rest, "j")
-			if strings.Contains(rest, "e") {
-				o.EventStore = NewMemoryEventStore(nil)
-			}
-			hd := NewStreamableHTTPHandler(getServer, o)
-			cleanup = append(cleanup, hd.closeAll)
-			ct = &StreamableClientTransport{Endpoint: url, HTTPClient: &http.Client{Transport: &canFaultRT{&ordRT{h: hd}, h}},
-				DisableStandaloneSSE: strings.Contains(rest, "n")}
+		return client
 		}
-		var cs *ClientSession
-		if status == "ok" {
-			var err error
-			cs, err = client.Connect(context.Background(), ct, &ClientSessionOptions{ProtocolVersion: c.pv})
+		var cleanup []func()
+		hds := map[*Server]http.Handler{} // one HTTP handler per server: two clients of one server share it
+		url := "http://verif.invalid/mcp"
+		// connect makes session number sess between server and client over the transport of the case
+		connect := func(server *Server, client *Client, sess int) (*ClientSession, *ServerSession, bool) {
+			var ct Transport
+			var pipeSS *ServerSession
+			getServer := func(*http.Request) *Server { return server }
+			switch c.tr {
+			case "mem":
+				a, b := NewInMemoryTransports()
+				var err error
+				if pipeSS, err = server.Connect(context.Background(), &canFaultTransport{a, h, "server", sess}, nil); err != nil {
+					return nil, nil, false
+				}
+				ct = &canFaultTransport{b, h, "client", sess}
+			case "io":
+				r1, w1 := io.Pipe()
+				r2, w2 := io.Pipe()
+				var err error
+				if pipeSS, err = server.Connect(context.Background(), &canFaultTransport{&IOTransport{Reader: r1, Writer: w2}, h, "server", sess}, nil); err != nil {
+					return nil, nil, false
+				}
+				ct = &canFaultTransport{&IOTransport{Reader: r2, Writer: w1}, h, "client", sess}
+			case "fj":
+				ct = &StreamableClientTransport{Endpoint: url, DisableStandaloneSSE: true,
+					HTTPClient: &http.Client{Transport: &canForeign{h: h, sess: sess, can: map[string]chan struct{}{}, tag: map[string]int{}}}}
+			case "sse":
+				hd := hds[server]
+				if hd == nil {
+					hd = NewSSEHandler(getServer, nil)
+					hds[server] = hd
+				}
+				ct = &SSEClientTransport{Endpoint: url, HTTPClient: &http.Client{Transport: &canFaultRT{&ordRT{h: hd}, h, sess}}}
+			default:
+				rest := strings.TrimPrefix(strings.TrimPrefix(c.tr, "sh"), "sl")
+				hd := hds[server]
+				if hd == nil {
+					o := &StreamableHTTPOptions{}
+					o.Stateless = strings.HasPrefix(c.tr, "sl")
+					o.PropagateRequestCancellation = strings.Contains(rest, "p")
+					o.JSONResponse = strings.Contains(rest, "j")
+					if strings.Contains(rest, "e") {
+						o.EventStore = NewMemoryEventStore(nil)
+					}
+					sh := NewStreamableHTTPHandler(getServer, o)
+					cleanup = append(cleanup, sh.closeAll)
+					hd = sh
+					hds[server] = hd
+				}
+				ct = &StreamableClientTransport{Endpoint: url, HTTPClient: &http.Client{Transport: &canFaultRT{&ordRT{h: hd}, h, sess}},
+					DisableStandaloneSSE: strings.Contains(rest, "n")}
+			}
+			cs, err := client.Connect(context.Background(), ct, &ClientSessionOptions{ProtocolVersion: c.pv})
 			if err != nil {
+				return nil, nil, false
+			}
+			return cs, pipeSS, true
+		}
+		server, client := mkServer(), mkClient()
+		servers := []*Server{server}
+		cs, pipeSS, ok := connect(server, client, 0)
+		if !ok {
+			status = "connect-fail"
+		}
+		h.css = []*ClientSession{cs}
+		if status == "ok" && c.twin != "" {
+			server1, client1 := server, client
+			if c.twin == "c" { // one Client, two servers
+				server1 = mkServer()
+				servers = append(servers, server1)
+			} else { // one Server, two client sessions
+				client1 = mkClient()
+			}
+			cs1, _, ok := connect(server1, client1, 1)
+			if !ok {
 				status = "connect-fail"
 			}
+			h.css = append(h.css, cs1)
 		}
 		stuck, closeHung := 0, 0
 		if status == "ok" {
@@ -982,7 +1075,7 @@ func canRunCase(t *testing.T, out *verifOut, id string, c *canCase) {
 			h.mu.Unlock()
 			for i, k := range c.calls {
 				if k.dir == "c2s" {
-					h.start(context.Background(), i, cs, nil)
+					h.start(context.Background(), i, h.css[k.s], nil)
 				}
 			}
 			// the victim's context ends at tc; with rc the receiver of its request starts a graceful Close 5 ms before
@@ -1018,12 +1111,21 @@ func canRunCase(t *testing.T, out *verifOut, id string, c *canCase) {
 			} else {
 				h.end(c.victim, err)
 			}
-			time.Sleep(50 * time.Millisecond)
+			if c.twin != "" && c.victim2 >= 0 { // 20 ms later a call of the OTHER session is cancelled
+				time.Sleep(20 * time.Millisecond)
+				h.end(c.victim2, context.Canceled)
+				time.Sleep(30 * time.Millisecond)
+			} else {
+				time.Sleep(50 * time.Millisecond)
+			}
 			synctest.Wait()
 			// follow-up calls while everything else is still parked
 			close(h.follow)
 			if !c.rclose {
 				h.followUp(canFollow1, cs)
+			}
+			if c.twin != "" {
+				h.followUp(canFollow1B, h.css[1])
 			}
 			time.Sleep(canReleaseMs * time.Millisecond)
 			synctest.Wait()
@@ -1043,6 +1145,9 @@ func canRunCase(t *testing.T, out *verifOut, id string, c *canCase) {
 			synctest.Wait()
 			time.Sleep(canLateMs * time.Millisecond)
 			synctest.Wait()
+			if c.twin != "" {
+				h.followUp(canFollow2B, h.css[1])
+			}
 			if !c.rclose {
 				h.followUp(canFollow2, cs)
 			} else {
@@ -1064,12 +1169,16 @@ func canRunCase(t *testing.T, out *verifOut, id string, c *canCase) {
 		for i := range c.calls {
 			h.end(i, context.Canceled)
 		}
-		if cs != nil {
-			cs.Close()
+		for _, x := range h.css {
+			if x != nil {
+				x.Close()
+			}
 		}
 		synctest.Wait()
-		for s := range server.Sessions() {
-			s.Close()
+		for _, srv := range servers {
+			for s := range srv.Sessions() {
+				s.Close()
+			}
 		}
 		for _, f := range cleanup {
 			f()
@@ -1096,7 +1205,8 @@ func canRunCase(t *testing.T, out *verifOut, id string, c *canCase) {
 		}
 		recs = append(recs, [3]string{c.cancelOp(), "ok", strings.Join([]string{scope, "when=" + c.when, "fault=" + c.fault, "victim=" + vd, "tr=" + c.tr + "/" + vd + "/" + c.when,
 			"victim-mode=" + c.calls[c.victim].mode, map[bool]string{true: "deadline", false: map[bool]string{true: "cancel-cause", false: "cancel"}[c.cz]}[c.dl],
-			"cancelled-together=" + canBucket(ngrp)}, ",")})
+			"cancelled-together=" + canBucket(ngrp), "sessions=" + map[string]string{"": "1", "c": "2:one-client-two-servers", "s": "2:one-server-two-clients"}[c.twin],
+			map[bool]string{true: "other-session-cancel", false: "other-session-quiet"}[c.victim2 >= 0]}, ",")})
 		for seq, e := range evs {
 			op := fmt.Sprintf("e %d %s %d", seq, e.what, e.id)
 			obs := fmt.Sprintf("t=%d", e.ms)
@@ -1146,9 +1256,41 @@ func canJSON(tr string) bool         { return canStreamable(tr) && strings.Conta
 // transport that stalls or acknowledges late it would not return promptly — the documented reason for the default).
 func canGen(rng *rand.Rand, tr string) *canCase {
 	c := canGen0(rng, tr)
+	c.victim2 = -1
 	switch c.fault {
 	case "none", "reject", "s503", "reset":
 		c.bc = rng.Intn(12) == 0
+	}
+	// TWO sessions in one process (a sixth of the cases): the scenario proper runs on session 0; session 1 — a second
+	// server of the same Client (tw=c) or a second client session of the same Server (tw=s; the foreign server is
+	// one per client) — has 1-3 client→server calls of its own, one of which is cancelled 20 ms after the victim
+	// (three quarters of the twins).  Faults are injected on session 0 only: whatever happens to the notices of one
+	// session, the other session's calls, cancellations and follow-ups behave as if it were alone.
+	if !c.rclose && rng.Intn(6) == 0 {
+		c.twin = []string{"c", "s"}[rng.Intn(2)]
+		if tr == "fj" {
+			c.twin = "c"
+		}
+		n := 1 + rng.Intn(3)
+		first := len(c.calls)
+		for k := 0; k < n; k++ {
+			mode, d := "park", 0
+			switch rng.Intn(5) {
+			case 0:
+				mode = "deaf"
+			case 1:
+				mode, d = "quick", 1+rng.Intn(30)
+			}
+			meth := []string{"tool", "tool", "ping"}[rng.Intn(3)]
+			if c.pv >= protocolVersion20260728 {
+				meth = "tool"
+			}
+			c.calls = append(c.calls, canCall{dir: "c2s", meth: meth, mode: mode, d: d, at: rng.Intn(4), s: 1})
+		}
+		if rng.Intn(4) != 0 {
+			c.victim2 = first + rng.Intn(n)
+			c.calls[c.victim2].mode, c.calls[c.victim2].d = "park", 0
+		}
 	}
 	return c
 }
@@ -1171,6 +1313,25 @@ func canGen0(rng *rand.Rand, tr string) *canCase {
 		}
 	}
 	at := func() int { return rng.Intn(4) }
+	pipeTr := tr == "mem" || tr == "io"
+	if (isNew && rng.Intn(4) == 0) || (pipeTr && rng.Intn(12) == 0) {
+		// subscriptions/listen (2026-07-28): ClientSession.Subscribe opens a listen stream whose call is NOT awaited
+		// (callSubscriptionsListen); Unsubscribe ends its context and a detached goroutine runs cancelCall.  The
+		// server's handler (the real one) blocks until its context ends.  The listen call is the victim; 0-2 other
+		// tool calls are in flight.  On the pipes the session then speaks 2026-07-28 too.
+		c.pv = protocolVersion20260728
+		c.calls = append(c.calls, canCall{dir: "c2s", meth: "listen", mode: "listen", at: at()})
+		for k := rng.Intn(3); k > 0; k-- {
+			m, d := mode()
+			c.calls = append(c.calls, canCall{dir: "c2s", meth: "tool", mode: m, d: d, at: at()})
+		}
+		c.victim, c.when = 0, "run"
+		c.tc = c.calls[0].at + 10 + rng.Intn(20)
+		if pipeTr && rng.Intn(3) == 0 {
+			c.fault = []string{"stall", "reject", "late"}[rng.Intn(3)]
+		}
+		return c
+	}
 	if rng.Intn(9) == 0 {
 		// A GROUP of calls sharing one context (errgroup, request scope, common deadline) that ends at once: 2-7 or
 		// 17-32 members (more than any small constant of the code), client→server or nested server→client inside one
@@ -1352,7 +1513,7 @@ func canBucket(n int) string {
 }
 
 func canParse(lines []string) (*canCase, bool) {
-	c := &canCase{fault: "none", victim: -1}
+	c := &canCase{fault: "none", victim: -1, victim2: -1}
 	kv := func(f []string, k string) string {
 		for _, t := range f {
 			if strings.HasPrefix(t, k+"=") {
@@ -1370,10 +1531,11 @@ func canParse(lines []string) (*canCase, bool) {
 		case "cfg":
 			c.tr, c.pv = kv(f, "tr"), kv(f, "pv")
 			c.bc = kv(f, "bc") == "1"
+			c.twin = kv(f, "tw")
 		case "c":
 			d, _ := strconv.Atoi(kv(f, "d"))
 			at, _ := strconv.Atoi(kv(f, "at"))
-			c.calls = append(c.calls, canCall{dir: kv(f, "dir"), meth: kv(f, "meth"), mode: kv(f, "mode"), d: d, at: at, grp: kv(f, "g") == "1"})
+			c.calls = append(c.calls, canCall{dir: kv(f, "dir"), meth: kv(f, "meth"), mode: kv(f, "mode"), d: d, at: at, grp: kv(f, "g") == "1", s: map[bool]int{true: 1}[kv(f, "s") == "1"]})
 		case "x":
 			c.victim, _ = strconv.Atoi(kv(f, "victim"))
 			c.when = kv(f, "when")
@@ -1382,6 +1544,9 @@ func canParse(lines []string) (*canCase, bool) {
 			c.fault = kv(f, "fault")
 			c.rclose = kv(f, "rc") == "1"
 			c.cz = kv(f, "cz") == "1"
+			if v := kv(f, "v2"); v != "" {
+				c.victim2, _ = strconv.Atoi(v)
+			}
 		}
 	}
 	return c, c.tr != "" && len(c.calls) > 0 && c.victim >= 0 && c.victim < len(c.calls)
